@@ -190,6 +190,13 @@ def oracle(events, res):
                     collected = bool(acc) and all(any(y in ("u%d" % k for k in dead_monitors) for y in r.split("/")[1:3]) for r in acc)
                     flags.append({"cls": ("unseen-local" if local and n == 0 else "rule-collected" if collected and n == 0 else "copies"), "step": i,
                                   "what": "monitor %d read %d copies of %s, expected %d" % (x, n, t, 1 if e1 else 0)})
+            # never the addressee: nothing the bus itself originates is addressed to a monitor (copies of clients' messages
+            # to its former unique name are undeliverable messages shown to it as observer, their SENDER is the client)
+            for t in got:
+                m = parse_tok(t)
+                if m["sender"] == "d" and m["dest"] == "u%d" % x:
+                    flags.append({"cls": "addressed-to-monitor", "step": i,
+                                  "what": "monitor %d read a message the bus originated and addressed to the monitor itself: %s" % (x, t)})
             # a message read twice in one step (bus-made refusal errors are distinct messages with equal content)
             for t in set(got):
                 if got.count(t) > 1 and parse_tok(t)["type"] != "e":
@@ -207,6 +214,14 @@ def oracle(events, res):
             acked = any(parse_tok(t)["type"] == "r" and parse_tok(t)["rserial"] == int(f[2]) for t in got)
             if acked:
                 filters[actor] = ["-/-/-/-/-"] if f[3] == "-" else f[3].split(",")
+                # after the ack the only things the bus addresses to the new monitor are the NameLost signals of the switch;
+                # in particular no error answering (or giving up on) one of its own calls
+                k_ack = next(j for j, t in enumerate(got) if parse_tok(t)["type"] == "r" and parse_tok(t)["rserial"] == int(f[2]))
+                for t in got[k_ack + 1:]:
+                    m = parse_tok(t)
+                    if m["sender"] == "d" and m["dest"] == "u%d" % actor and not (m["type"] == "s" and m["member"] == 8):
+                        flags.append({"cls": "addressed-to-monitor", "step": i,
+                                      "what": "connection %d, having become a monitor, read a message the bus originated and addressed to it: %s" % (actor, t)})
                 for t in set(got):
                     if got.count(t) > 1 and parse_tok(t)["type"] == "s":
                         flags.append({"cls": "switch-duplicate", "step": i,
